@@ -162,10 +162,10 @@ def run(tier: str, seed: int) -> int:
     fut_lat = [(n, pool.submit(_mc, "LateralMaskMC", c, LAT_INVS, ("Bounded",), 2)) for n, c in lat]
 
     # ---- A: one implementation test per emitted geometry
-    mod = 18 if quick else 1
+    mod = 8 if quick else 1
     recs = emit_geometries(chk, "symmetric", dict(full, EmitMod=mod, EmitRem=seed % mod))
     replay_geometries(chk, recs, rng, "symmetric")
-    amod = 52 if quick else 4
+    amod = 24 if quick else 4
     arecs = emit_geometries(chk, "asymmetric", dict(asym, EmitMod=amod, EmitRem=seed % amod))
     replay_geometries(chk, arecs, rng, "asymmetric")
     convs = [r for r in recs + arecs if r["geom"]["kind"] == "conv"]
@@ -180,7 +180,7 @@ def run(tier: str, seed: int) -> int:
     for name, consts in lat:
         g = lateral_graph(chk, name, consts)
         first = first or (g, consts)
-        budget = 900 if quick else 40000
+        budget = 2500 if quick else 40000
         replay_lateral(chk, g, consts, rng, budget)
         if consts["N"] % 2 == 0:
             replay_lateral(chk, g, consts, rng, budget // 2, shape2=True)
